@@ -210,11 +210,13 @@ func (s *ExecutionPayloadHeader) View() *ExecutionPayloadHeaderView {
 	if err != nil {
 		panic(err)
 	}
-	pr, cb, sr, rr := (*RootView)(&s.ParentHash), s.FeeRecipient.View(), (*RootView)(&s.StateRoot), (*RootView)(&s.ReceiptsRoot)
-	lb, rng, nr, gl, gu := s.LogsBloom.View(), (*RootView)(&s.PrevRandao), s.BlockNumber, s.GasLimit, s.GasUsed
+	// copy the roots: a *RootView is its own tree node, the view must not share memory with this struct
+	parentHashCopy, stateRootCopy, receiptsRootCopy, prevRandaoCopy, blockHashCopy, transactionsRootCopy, withdrawalsRootCopy := RootView(s.ParentHash), RootView(s.StateRoot), RootView(s.ReceiptsRoot), RootView(s.PrevRandao), RootView(s.BlockHash), RootView(s.TransactionsRoot), RootView(s.WithdrawalsRoot)
+	pr, cb, sr, rr := &parentHashCopy, s.FeeRecipient.View(), &stateRootCopy, &receiptsRootCopy
+	lb, rng, nr, gl, gu := s.LogsBloom.View(), &prevRandaoCopy, s.BlockNumber, s.GasLimit, s.GasUsed
 	ts, bf := Uint64View(s.Timestamp), &s.BaseFeePerGas
-	bh, tr := (*RootView)(&s.BlockHash), (*RootView)(&s.TransactionsRoot)
-	wr := (*RootView)(&s.WithdrawalsRoot)
+	bh, tr := &blockHashCopy, &transactionsRootCopy
+	wr := &withdrawalsRootCopy
 	bgu, ebg := &s.BlobGasUsed, &s.ExcessBlobGas
 
 	v, err := AsExecutionPayloadHeader(ExecutionPayloadHeaderType.FromFields(pr, cb, sr, rr, lb, rng, nr, gl, gu, ts, ed, bf, bh, tr, wr, bgu, ebg))
